@@ -955,6 +955,13 @@ func genScenario(r *rand.Rand, t *Tree, id int) *Scenario {
 	}
 	sc.RenameLong = S{}
 	defer func() {
+		// a word that is the alias of two sibling commands selects the later one, not necessarily the one the generator
+		// went on with: what it took for two spellings of one option may then be two different options
+		for _, tok := range sc.Argv {
+			if tok.String() == "dup" {
+				sc.Alt, sc.AltInfo = nil, nil
+			}
+		}
 		// names that only exist inside no-flag struct fields are unknown to the parser
 		if treeHasNoFlag(t) && chance(r, 0.5) {
 			tok := toS(pick(r, []string{"--nf-skipped", "-N", "--nf-value=1", "--nf-value"}))
